@@ -137,6 +137,19 @@ impl Hash for Expression {
     }
 }
 
+/// Returns `Some(true)` if every array index of the access is known to be
+/// constant, `Some(false)` if some index is known not to be, and `None` if the
+/// degree of some index is not known yet.
+fn constant_indices(access: &[AccessType]) -> Option<bool> {
+    let mut result = true;
+    for access in access {
+        if let AccessType::ArrayAccess(index) = access {
+            result = result && index.degree()?.is_constant();
+        }
+    }
+    Some(result)
+}
+
 impl DegreeMeta for Expression {
     fn propagate_degrees(&mut self, env: &DegreeEnvironment) -> bool {
         let mut result = false;
@@ -225,7 +238,18 @@ impl DegreeMeta for Expression {
                     }
                 }
                 if let Some(range) = env.degree(var) {
-                    result = result || meta.degree_knowledge_mut().set_degree(range);
+                    // Which element is read depends on the indices: the degree of the
+                    // variable only bounds the access if every index is a constant.
+                    match constant_indices(access) {
+                        Some(true) => {
+                            result = result || meta.degree_knowledge_mut().set_degree(range);
+                        }
+                        Some(false) => {
+                            let range = DegreeRange::new(range.start(), NonQuadratic);
+                            result = result || meta.degree_knowledge_mut().set_degree(&range);
+                        }
+                        None => {}
+                    }
                 }
                 result
             }
@@ -237,17 +261,31 @@ impl DegreeMeta for Expression {
                         result = result || index.propagate_degrees(env);
                     }
                 }
-                if env.degree(var).is_none() {
-                    // This is the first assignment to the array. The degree is given by the RHS.
-                    if let Some(range) = rhe.degree() {
-                        result = result || meta.degree_knowledge_mut().set_degree(range);
+                let range = if env.degree(var).is_none() {
+                    if env.is_assigned(var) {
+                        // The array has been assigned to previously, but the degree of the
+                        // assigned value is not known.
+                        None
+                    } else {
+                        // This is the first assignment to the array. The degree is given by the RHS.
+                        rhe.degree().cloned()
                     }
                 } else {
                     // The array has been assigned to previously. The degree is the infimum of
                     // the degrees of `var` and the RHS.
-                    let range = DegreeRange::iter_opt([env.degree(var), rhe.degree()]);
-                    if let Some(range) = range {
-                        result = result || meta.degree_knowledge_mut().set_degree(&range);
+                    DegreeRange::iter_opt([env.degree(var), rhe.degree()])
+                };
+                if let Some(range) = range {
+                    // Which element is replaced depends on the indices.
+                    match constant_indices(access) {
+                        Some(true) => {
+                            result = result || meta.degree_knowledge_mut().set_degree(&range);
+                        }
+                        Some(false) => {
+                            let range = DegreeRange::new(range.start(), NonQuadratic);
+                            result = result || meta.degree_knowledge_mut().set_degree(&range);
+                        }
+                        None => {}
                     }
                 }
                 result
